@@ -8,6 +8,8 @@ import (
 	"sort"
 	"strings"
 	"time"
+
+	"github.com/shopspring/decimal"
 )
 
 func init() { runners["C05"] = runC05 }
@@ -195,99 +197,144 @@ func runC05(c *Ctx) {
 			return
 		}
 	}
-	n := c.N(500, 4000)
-	nvar := c.N(5, 10)
 	base := filepath.Join(c.WorkDir, "c05")
 	type cs struct {
-		idx  int
-		j    *Journal
-		f    BalFlags
-		vars []*c05Variant
-		tags []string
+		stream string
+		kind   string // stream order: which rule of the checker the journal breaks (or "valid…")
+		idx    int
+		j      *Journal
+		f      BalFlags
+		vars   []*c05Variant
+		tags   []string
+		sweep  []*c05Sweep
 	}
 	var cases []*cs
-	for i := 0; i < n; i++ {
-		if !c.Want("layout", i) {
-			continue
-		}
-		r := c.Rng("layout", i)
-		o := JGenOpts{MaxAccounts: r.Range(2, 6), MaxDays: r.Range(1, 5), Unicode: true, BaseDay: 737000 + r.Intn(1500), SpanDays: Pick(r, []int{0, 3, 30, 200}), BoundaryDates: r.Chance(1, 4),
-			Mutate: r.Chance(1, 5), Accruals: r.Chance(1, 4)}
-		if r.Chance(1, 2) {
-			o.Prices, o.Valuation = true, "CHF"
-			o.PricesFirstDayOnly = r.Chance(1, 2)
-		}
-		j, tags := GenJournal(r, o)
-		f := GenBalFlags(r, j, o.Valuation, BalGenOpts{Valued: true})
-		if r.Chance(1, 3) {
-			// two mapping rules of different shape: the mapped account an earlier posting created must not depend on which
-			// rule, or which account, a later posting meets first (seeded change C05-e let mapped accounts share a scratch
-			// buffer, so that the report row of a posting depended on the order of the transactions of a day)
-			accounts, _ := journalNames(j)
-			f.Map = []MapRuleF{{Level: r.Range(1, 2), Suffix: 1, Regex: genPattern(r, accounts)}, {Level: r.Range(1, 2), Suffix: r.Range(2, 3), Regex: genPattern(r, accounts)}}
-			if r.Bool() {
-				f.Map = append(f.Map, MapRuleF{Level: r.Range(1, 3)})
+	// stream `layout`: journals of the lifecycle generator (mostly valid). Stream `order`: journals whose verdict hangs on
+	// state that several same-day transactions build up before a directive of a LATER day breaks a rule of the checker
+	// (c05GenOrder); rejected in every directive order and every layout.
+	streams := []struct {
+		name    string
+		n, nvar int
+	}{{"layout", c.N(500, 4000), c.N(5, 10)}, {"order", c.N(200, 2500), c.N(6, 10)}}
+	for _, st := range streams {
+		stream, nvar := st.name, st.nvar
+		for i := 0; i < st.n; i++ {
+			if !c.Want(stream, i) {
+				continue
 			}
-		}
-		if r.Chance(1, 2) {
-			f.To = 0 // the report end then comes from the journal period
-		}
-		k := &cs{idx: i, j: j, f: f, tags: tags}
-		for v := 0; v < nvar; v++ {
-			order := make([]int, len(j.Dirs))
-			for q := range order {
-				order[q] = q
-			}
-			switch {
-			case v == 0: // the original order in a single file
-			case v == 1: // newest first (reverse chronological)
-				for a, b := 0, len(order)-1; a < b; a, b = a+1, b-1 {
-					order[a], order[b] = order[b], order[a]
+			r := c.Rng(stream, i)
+			var j *Journal
+			var tags []string
+			var f BalFlags
+			kind := ""
+			if stream == "order" {
+				j, kind, tags = c05GenOrder(r)
+				f = GenBalFlags(r, j, "", BalGenOpts{})
+				if r.Chance(1, 2) {
+					f.To = 0
 				}
-			case v == 2: // grouped by kind: prices, then transactions newest first, then the rest
-				rank := func(q int) int {
-					switch j.Dirs[q].Kind {
-					case 'p':
-						return 0
-					case 't':
-						return 1
-					}
-					return 2
-				}
-				sort.SliceStable(order, func(a, b int) bool {
-					ra, rb := rank(order[a]), rank(order[b])
-					if ra != rb {
-						return ra < rb
-					}
-					if ra == 1 {
-						return j.Dirs[order[a]].Date > j.Dirs[order[b]].Date
-					}
-					return false
-				})
-			default:
-				for q := len(order) - 1; q > 0; q-- {
-					w := r.Intn(q + 1)
-					order[q], order[w] = order[w], order[q]
-				}
-			}
-			vr := &c05Variant{Order: order, Seed: r.Intn(1000) + 1}
-			dir := filepath.Join(base, fmt.Sprintf("c%d/v%d", i, v))
-			if v <= 2 && (v == 0 || r.Chance(1, 2)) {
-				jj := &Journal{}
-				for _, q := range order {
-					jj.Dirs = append(jj.Dirs, j.Dirs[q])
-				}
-				text, _ := jj.Text()
-				os.MkdirAll(dir, 0o755)
-				vr.Root = filepath.Join(dir, "main.knut")
-				os.WriteFile(vr.Root, []byte(text), 0o644)
-				vr.Shape = "single"
 			} else {
-				vr.Root, vr.Shape = c05WriteTree(r, dir, j, order)
+				o := JGenOpts{MaxAccounts: r.Range(2, 6), MaxDays: r.Range(1, 5), Unicode: true, BaseDay: 737000 + r.Intn(1500), SpanDays: Pick(r, []int{0, 3, 30, 200}), BoundaryDates: r.Chance(1, 4),
+					Mutate: r.Chance(1, 5), Accruals: r.Chance(1, 4)}
+				if r.Chance(1, 2) {
+					o.Prices, o.Valuation = true, "CHF"
+					o.PricesFirstDayOnly = r.Chance(1, 2)
+				}
+				j, tags = GenJournal(r, o)
+				f = GenBalFlags(r, j, o.Valuation, BalGenOpts{Valued: true})
+				if r.Chance(1, 3) {
+					// two mapping rules of different shape: the mapped account an earlier posting created must not depend on which
+					// rule, or which account, a later posting meets first (seeded change C05-e let mapped accounts share a scratch
+					// buffer, so that the report row of a posting depended on the order of the transactions of a day)
+					accounts, _ := journalNames(j)
+					f.Map = []MapRuleF{{Level: r.Range(1, 2), Suffix: 1, Regex: genPattern(r, accounts)}, {Level: r.Range(1, 2), Suffix: r.Range(2, 3), Regex: genPattern(r, accounts)}}
+					if r.Bool() {
+						f.Map = append(f.Map, MapRuleF{Level: r.Range(1, 3)})
+					}
+				}
+				if r.Chance(1, 2) {
+					f.To = 0 // the report end then comes from the journal period
+				}
 			}
-			k.vars = append(k.vars, vr)
+			k := &cs{stream: stream, kind: kind, idx: i, j: j, f: f, tags: tags}
+			for v := 0; v < nvar; v++ {
+				order := make([]int, len(j.Dirs))
+				for q := range order {
+					order[q] = q
+				}
+				switch {
+				case v == 0: // the original order in a single file
+				case v == 1: // newest first (reverse chronological)
+					for a, b := 0, len(order)-1; a < b; a, b = a+1, b-1 {
+						order[a], order[b] = order[b], order[a]
+					}
+				case v == 2: // grouped by kind: prices, then transactions newest first, then the rest
+					rank := func(q int) int {
+						switch j.Dirs[q].Kind {
+						case 'p':
+							return 0
+						case 't':
+							return 1
+						}
+						return 2
+					}
+					sort.SliceStable(order, func(a, b int) bool {
+						ra, rb := rank(order[a]), rank(order[b])
+						if ra != rb {
+							return ra < rb
+						}
+						if ra == 1 {
+							return j.Dirs[order[a]].Date > j.Dirs[order[b]].Date
+						}
+						return false
+					})
+				case v == 3 && stream == "order": // the file stays chronological, only the transactions of each day change places
+					order = c05SameDayShuffle(r, j)
+				default:
+					for q := len(order) - 1; q > 0; q-- {
+						w := r.Intn(q + 1)
+						order[q], order[w] = order[w], order[q]
+					}
+				}
+				vr := &c05Variant{Order: order, Seed: r.Intn(1000) + 1}
+				dir := filepath.Join(base, fmt.Sprintf("%s%d/v%d", stream, i, v))
+				if (v <= 2 && (v == 0 || r.Chance(1, 2))) || (v == 3 && stream == "order") {
+					jj := &Journal{}
+					for _, q := range order {
+						jj.Dirs = append(jj.Dirs, j.Dirs[q])
+					}
+					text, _ := jj.Text()
+					os.MkdirAll(dir, 0o755)
+					vr.Root = filepath.Join(dir, "main.knut")
+					os.WriteFile(vr.Root, []byte(text), 0o644)
+					vr.Shape = "single"
+				} else {
+					vr.Root, vr.Shape = c05WriteTree(r, dir, j, order)
+				}
+				k.vars = append(k.vars, vr)
+			}
+			if stream == "order" {
+				// further orders of the same directives in one file, judged by the real loader and checker in-process (no report, so
+				// many of them are cheap): same-day shuffles and full permutations
+				for q := c.N(8, 16); q > 0; q-- {
+					sw := &c05Sweep{}
+					if r.Bool() {
+						sw.Order = c05SameDayShuffle(r, j)
+					} else {
+						sw.Order = make([]int, len(j.Dirs))
+						for a := range sw.Order {
+							sw.Order[a] = a
+						}
+						for a := len(sw.Order) - 1; a > 0; a-- {
+							w := r.Intn(a + 1)
+							sw.Order[a], sw.Order[w] = sw.Order[w], sw.Order[a]
+						}
+					}
+					k.sweep = append(k.sweep, sw)
+				}
+			}
+			cases = append(cases, k)
 		}
-		cases = append(cases, k)
 	}
 	type job struct{ k, v int }
 	var jobs []job
@@ -315,6 +362,24 @@ func runC05(c *Ctx) {
 			}
 		}
 	})
+	// stream order: the in-process sweep (sweep[0] is the original order)
+	var sweepCases []*cs
+	for _, k := range cases {
+		if len(k.sweep) > 0 {
+			sweepCases = append(sweepCases, k)
+		}
+	}
+	parallelFor(len(sweepCases), 8, func(q int) {
+		k := sweepCases[q]
+		dir := filepath.Join(base, fmt.Sprintf("%s%d/sweep", k.stream, k.idx))
+		os.MkdirAll(dir, 0o755)
+		for si, sw := range k.sweep {
+			sw.Text = c05Permuted(k.j, sw.Order)
+			p := filepath.Join(dir, fmt.Sprintf("s%d.knut", si))
+			os.WriteFile(p, []byte(sw.Text), 0o644)
+			sw.Verdict, _, sw.Msg = implCheck(p, nil)
+		}
+	})
 	os.RemoveAll(base)
 	bt := c.NewBatch()
 	defer bt.Flush()
@@ -330,7 +395,12 @@ func runC05(c *Ctx) {
 		for _, vr := range k.vars {
 			shapes[vr.Shape] = true
 		}
-		c.Class(fmt.Sprintf("c05/check%d/%s/shapes%d/n%s", b0.Check, flagClass(k.f), len(shapes), bucket(len(k.j.Dirs))))
+		if k.stream == "layout" {
+			c.Class(fmt.Sprintf("c05/check%d/%s/shapes%d/n%s", b0.Check, flagClass(k.f), len(shapes), bucket(len(k.j.Dirs))))
+		} else {
+			c.Class(fmt.Sprintf("c05/%s/%s/check%d/shapes%d/n%s", k.stream, k.kind, b0.Check, len(shapes), bucket(len(k.j.Dirs))))
+			c.Tag(fmt.Sprintf("order-verdict:%s/exit%d", k.kind, b0.Check))
+		}
 		if k.idx < 2 {
 			c.Sample(map[string]any{"journal": text, "args": strings.Join(k.f.Args(), " "), "variants": len(k.vars)})
 		}
@@ -343,18 +413,22 @@ func runC05(c *Ctx) {
 			vr := vr
 			in := map[string]any{"journal": text, "variant": vi, "order": vr.Order, "shape": vr.Shape, "fs": vr.FS}
 			bt.Add(func(model string) {
-				c.Compare("layout", k.idx, "journal-of", in, c05CanonDump(vr.Dump), c05CanonDump(model))
+				c.Compare(k.stream, k.idx, "journal-of", in, c05CanonDump(vr.Dump), c05CanonDump(model))
 			}, "c05journal", Hex("main.knut"), vr.FS)
 		}
 		for vi, vr := range k.vars[1:] {
 			in := map[string]any{"journal": text, "args": strings.Join(k.f.Args(), " "), "variant": vi + 1, "order": vr.Order, "shape": vr.Shape, "schedule_seed": vr.Seed}
-			c.Monitor("layout", k.idx, "verdict_same", in, vr.Check == b0.Check && vr.PrC == b0.PrC && vr.BalC == b0.BalC && !strings.Contains(vr.ErrOut, "panic"),
+			if k.stream == "order" {
+				in["kind"] = k.kind
+				in["variant_directives_in_order"] = c05Permuted(k.j, vr.Order)
+			}
+			c.Monitor(k.stream, k.idx, "verdict_same", in, vr.Check == b0.Check && vr.PrC == b0.PrC && vr.BalC == b0.BalC && !strings.Contains(vr.ErrOut, "panic"),
 				fmt.Sprintf("exit codes check/balance/print: original %d/%d/%d, variant %d/%d/%d\n%s", b0.Check, b0.BalC, b0.PrC, vr.Check, vr.BalC, vr.PrC, clip(vr.ErrOut)))
 			if b0.BalC == 0 && vr.BalC == 0 {
-				c.Monitor("layout", k.idx, "balance_bytes_same", in, vr.Bal == b0.Bal, "original:\n"+b0.Bal+"\nvariant:\n"+vr.Bal)
+				c.Monitor(k.stream, k.idx, "balance_bytes_same", in, vr.Bal == b0.Bal, "original:\n"+b0.Bal+"\nvariant:\n"+vr.Bal)
 			}
 			if b0.PrC == 0 && vr.PrC == 0 {
-				c.Monitor("layout", k.idx, "print_same_up_to_block_order", in, c05CanonPrint(vr.Print) == c05CanonPrint(b0.Print), "original:\n"+b0.Print+"\nvariant:\n"+vr.Print)
+				c.Monitor(k.stream, k.idx, "print_same_up_to_block_order", in, c05CanonPrint(vr.Print) == c05CanonPrint(b0.Print), "original:\n"+b0.Print+"\nvariant:\n"+vr.Print)
 			}
 			// the model on the permuted directive list gives the same report as the real code on the variant
 			if vi < 2 {
@@ -370,9 +444,374 @@ func runC05(c *Ctx) {
 					if model == "unsupported" {
 						return
 					}
-					c.Compare("layout", k.idx, "balance-permuted", in, impl, modelOutcomeCanon(model))
+					c.Compare(k.stream, k.idx, "balance-permuted", in, impl, modelOutcomeCanon(model))
 				}, "balance", k.f.Wire(today()), pj.Wire())
 			}
 		}
+		if k.stream != "order" {
+			continue
+		}
+		// the verdict of `knut check` on every variant against the model's checker on the directives in that variant's order
+		for vi, vr := range k.vars {
+			if vr.Check != 0 && vr.Check != 1 {
+				continue
+			}
+			vr := vr
+			in := map[string]any{"journal": text, "kind": k.kind, "variant": vi, "order": vr.Order, "shape": vr.Shape, "variant_directives_in_order": c05Permuted(k.j, vr.Order)}
+			pj := &Journal{}
+			for _, q := range vr.Order {
+				pj.Dirs = append(pj.Dirs, k.j.Dirs[q])
+			}
+			bt.Add(func(model string) {
+				c.Compare(k.stream, k.idx, "check-verdict", in, []string{"ok", "error"}[vr.Check], strings.Fields(model + " ?")[0])
+			}, "check", pj.Wire())
+		}
+		// the sweep: every further order of the same directives gets the verdict of the original order
+		s0 := k.sweep[0]
+		for si, sw := range k.sweep[1:] {
+			in := map[string]any{"journal": s0.Text, "kind": k.kind, "sweep": si + 1, "order": sw.Order, "variant_journal": sw.Text}
+			c.Monitor(k.stream, k.idx, "verdict_same_in_process", in, sw.Verdict == s0.Verdict && (sw.Verdict == "ok" || sw.Verdict == "error"),
+				fmt.Sprintf("journal.FromPath + check.Check in-process: original order %s (%s), this order %s (%s)", s0.Verdict, clip(s0.Msg), sw.Verdict, clip(sw.Msg)))
+		}
 	}
+}
+
+// c05Sweep is one further order of a case's directives, written to a single file and judged in-process.
+type c05Sweep struct {
+	Order   []int
+	Text    string
+	Verdict string
+	Msg     string
+}
+
+// c05Permuted is the text of the journal with its directives in the given order.
+func c05Permuted(j *Journal, order []int) string {
+	jj := &Journal{}
+	for _, q := range order {
+		jj.Dirs = append(jj.Dirs, j.Dirs[q])
+	}
+	text, _ := jj.Text()
+	return text
+}
+
+// c05SameDayShuffle keeps every directive where it is, except that the transactions of each day are dealt out anew
+// over the places the transactions of that day hold.
+func c05SameDayShuffle(r *RNG, j *Journal) []int {
+	order := make([]int, len(j.Dirs))
+	byDay := map[int][]int{}
+	var days []int
+	for q, d := range j.Dirs {
+		order[q] = q
+		if d.Kind == 't' {
+			if byDay[d.Date] == nil {
+				days = append(days, d.Date)
+			}
+			byDay[d.Date] = append(byDay[d.Date], q)
+		}
+	}
+	sort.Ints(days)
+	for _, day := range days {
+		pos := byDay[day]
+		vals := append([]int(nil), pos...)
+		for a := len(vals) - 1; a > 0; a-- {
+			w := r.Intn(a + 1)
+			vals[a], vals[w] = vals[w], vals[a]
+		}
+		for a, p := range pos {
+			order[p] = vals[a]
+		}
+	}
+	return order
+}
+
+// c05GenOrder builds a journal whose verdict hangs on state that SEVERAL transactions of one day build up (which accounts are
+// open, which positions they hold, which accounts were booked last) and a directive of a later day that breaks one rule of
+// the checker against that state — every rule it has: booking on a closed / never opened / not yet opened account, second
+// open, close with a position, second close, failed assertion, assertion on a closed account. Two kinds are valid controls
+// (close, re-open, book again; nothing broken). Whatever order the directives are written in and however they are spread
+// over files, the days hold the same directives, so the verdict is the same: these journals are rejected in EVERY order.
+// Around the offending directive: 1-3 busy days of 2-6 transactions most of which touch the account in question, the
+// offender 0-3 days after the state it depends on, 0-2 transactions on other accounts in between, its own transaction
+// sometimes with a harmless booking first, the account on either side of the booking, sometimes valid days afterwards.
+var c05OrderKinds = []string{"closed-booking", "closed-booking", "closed-booking", "never-opened", "not-yet-opened", "double-open", "close-with-position",
+	"failed-assertion", "assert-closed", "double-close", "valid-reopen", "valid"}
+
+func c05GenOrder(r *RNG) (*Journal, string, []string) {
+	kind := Pick(r, c05OrderKinds)
+	segs := []string{"Bank", "Cash", "Broker", "Savings", "Checking", "Food", "Rent", "Salary", "Car", "A", "B"}
+	isAL := func(a string) bool { return strings.HasPrefix(a, "Assets") || strings.HasPrefix(a, "Liabilities") }
+	accounts := []string{"Assets:" + Pick(r, segs), Pick(r, []string{"Equity:Opening", "Income:Salary", "Expenses:Food", "Liabilities:Card"})}
+	for nacc := r.Range(3, 6); len(accounts) < nacc; {
+		a := Pick(r, typeNames) + ":" + Pick(r, segs)
+		if r.Chance(1, 3) {
+			a += ":" + Pick(r, segs)
+		}
+		if !contains(accounts, a) {
+			accounts = append(accounts, a)
+		}
+	}
+	coms := []string{"CHF"}
+	if r.Bool() {
+		coms = append(coms, Pick(r, []string{"USD", "AAPL"}))
+	}
+	// the account in question
+	x := Pick(r, accounts)
+	if kind == "close-with-position" || kind == "failed-assertion" || r.Chance(1, 2) {
+		var al []string
+		for _, a := range accounts {
+			if isAL(a) {
+				al = append(al, a)
+			}
+		}
+		x = Pick(r, al)
+	}
+	j := &Journal{}
+	open := map[string]bool{}
+	qty := map[[2]string]decimal.Decimal{}
+	descs := []string{"Groceries", "Salary", "rent", "Transfer", "x", "fee", ""}
+	amount := func() string {
+		switch r.Intn(4) {
+		case 0:
+			return fmt.Sprintf("%d.%02d", r.Intn(300), r.Range(1, 99))
+		case 1:
+			return fmt.Sprintf("-%d", r.Range(1, 50))
+		}
+		return fmt.Sprintf("%d", r.Range(1, 900))
+	}
+	book := func(day int, desc string, bks ...JBook) {
+		j.Dirs = append(j.Dirs, JDir{Kind: 't', Date: day, Desc: desc, Bookings: bks})
+		for _, b := range bks {
+			q, _ := decimal.NewFromString(b.Qty)
+			if isAL(b.Credit) {
+				qty[[2]string{b.Credit, b.Com}] = qty[[2]string{b.Credit, b.Com}].Sub(q)
+			}
+			if isAL(b.Debit) {
+				qty[[2]string{b.Debit, b.Com}] = qty[[2]string{b.Debit, b.Com}].Add(q)
+			}
+		}
+	}
+	// open accounts other than the one in question
+	others := func() []string {
+		var res []string
+		for _, a := range accounts {
+			if open[a] && a != x {
+				res = append(res, a)
+			}
+		}
+		return res
+	}
+	pair := func(a string) JBook {
+		o := others()
+		b := Pick(r, o)
+		if b == a {
+			b = o[(indexOf(o, a)+1)%len(o)]
+		}
+		if r.Bool() {
+			a, b = b, a
+		}
+		return JBook{a, b, amount(), Pick(r, coms)}
+	}
+	day := 737000 + r.Intn(1500)
+	unopened := kind == "never-opened" || kind == "not-yet-opened"
+	var late []string // opened on the first busy day instead of the first day
+	for ai, a := range accounts {
+		if a == x && unopened {
+			continue
+		}
+		if ai >= 3 && a != x && r.Chance(1, 5) {
+			late = append(late, a)
+			continue
+		}
+		j.Dirs = append(j.Dirs, JDir{Kind: 'o', Date: day, Account: a})
+		open[a] = true
+	}
+	// busy days
+	for b, nb := 0, r.Range(1, 3); b < nb; b++ {
+		if b > 0 || r.Bool() {
+			day += r.Range(1, 4)
+		}
+		for _, a := range late {
+			j.Dirs = append(j.Dirs, JDir{Kind: 'o', Date: day, Account: a})
+			open[a] = true
+		}
+		late = nil
+		for t, ntx := 0, r.Range(2, 6); t < ntx; t++ {
+			a := Pick(r, others())
+			if open[x] && r.Chance(3, 5) {
+				a = x
+			}
+			bks := []JBook{pair(a)}
+			if r.Chance(1, 6) {
+				bks = append(bks, pair(Pick(r, others())))
+			}
+			book(day, Pick(r, descs), bks...)
+		}
+		if r.Chance(1, 3) { // true assertions (the quantity is filled in at the end: later directives may still book on this day)
+			for _, a := range accounts {
+				if open[a] && isAL(a) && r.Bool() {
+					j.Dirs = append(j.Dirs, JDir{Kind: 'a', Date: day, Balances: []JBal{{a, "?", Pick(r, coms)}}})
+				}
+			}
+		}
+	}
+	for _, a := range late { // (no busy day opened them)
+		j.Dirs = append(j.Dirs, JDir{Kind: 'o', Date: day, Account: a})
+		open[a] = true
+	}
+	// the account in question is emptied by bookings of the last busy day and closed on that day or soon after
+	closeX := func() {
+		var bks []JBook
+		for _, c := range coms {
+			q := qty[[2]string{x, c}]
+			if q.IsZero() {
+				continue
+			}
+			to := Pick(r, others())
+			if r.Bool() {
+				bks = append(bks, JBook{x, to, q.String(), c})
+			} else {
+				bks = append(bks, JBook{to, x, q.Neg().String(), c})
+			}
+		}
+		if len(bks) > 1 && r.Bool() {
+			for _, b := range bks {
+				book(day, Pick(r, descs), b)
+			}
+		} else if len(bks) > 0 {
+			book(day, Pick(r, descs), bks...)
+		}
+		day += r.Range(0, 2)
+		j.Dirs = append(j.Dirs, JDir{Kind: 'c', Date: day, Account: x})
+		open[x] = false
+		for _, c := range coms {
+			delete(qty, [2]string{x, c})
+		}
+	}
+	// 0-2 transactions among the other accounts between the state and the offender (on the days from..to)
+	fillers := func(from, to int) {
+		for n := Pick(r, []int{0, 0, 1, 2}); n > 0; n-- {
+			book(from+r.Intn(to-from+1), Pick(r, descs), pair(Pick(r, others())))
+		}
+	}
+	// the transaction that books on the account in question: sometimes a harmless booking first
+	bookX := func(d int, desc string) {
+		var bks []JBook
+		if r.Chance(1, 4) {
+			bks = append(bks, pair(Pick(r, others())))
+		}
+		y := Pick(r, others())
+		if r.Bool() {
+			bks = append(bks, JBook{x, y, amount(), Pick(r, coms)})
+		} else {
+			bks = append(bks, JBook{y, x, amount(), Pick(r, coms)})
+		}
+		if r.Chance(1, 6) {
+			bks = append(bks, pair(Pick(r, others())))
+		}
+		book(d, desc, bks...)
+	}
+	state := day
+	switch kind {
+	case "closed-booking":
+		closeX()
+		off := day + r.Range(1, 3)
+		fillers(state, off)
+		bookX(off, "late")
+		day = off
+	case "assert-closed":
+		closeX()
+		off := day + r.Range(1, 3)
+		fillers(state, off)
+		j.Dirs = append(j.Dirs, JDir{Kind: 'a', Date: off, Balances: []JBal{{x, "0", Pick(r, coms)}}})
+		day = off
+	case "double-close":
+		closeX()
+		off := day + r.Range(1, 3)
+		fillers(state, off)
+		j.Dirs = append(j.Dirs, JDir{Kind: 'c', Date: off, Account: x})
+		day = off
+	case "valid-reopen":
+		closeX()
+		re := day + r.Range(1, 3)
+		fillers(state, re)
+		j.Dirs = append(j.Dirs, JDir{Kind: 'o', Date: re, Account: x})
+		open[x] = true
+		day = re + r.Range(0, 2)
+		bookX(day, "again")
+	case "never-opened":
+		off := day + r.Range(0, 3)
+		fillers(state, off)
+		bookX(off, "stray")
+		day = off
+	case "not-yet-opened":
+		off := day + r.Range(0, 3)
+		fillers(state, off)
+		bookX(off, "early")
+		day = off + r.Range(1, 3)
+		j.Dirs = append(j.Dirs, JDir{Kind: 'o', Date: day, Account: x})
+		open[x] = true
+		if r.Bool() {
+			bookX(day+r.Range(0, 2), "in time")
+		}
+	case "double-open":
+		off := day + r.Range(0, 3)
+		fillers(state, off)
+		j.Dirs = append(j.Dirs, JDir{Kind: 'o', Date: off, Account: x})
+		day = off
+	case "close-with-position":
+		held := false
+		for _, c := range coms {
+			held = held || !qty[[2]string{x, c}].IsZero()
+		}
+		if !held {
+			book(day, "deposit", JBook{Pick(r, others()), x, fmt.Sprintf("%d", r.Range(1, 900)), Pick(r, coms)})
+		}
+		off := day + r.Range(0, 3)
+		fillers(state, off)
+		j.Dirs = append(j.Dirs, JDir{Kind: 'c', Date: off, Account: x})
+		day = off
+	case "failed-assertion":
+		off := day + r.Range(0, 3)
+		fillers(state, off)
+		c := Pick(r, coms)
+		wrong := qty[[2]string{x, c}].Add(decimal.New(int64(Pick(r, []int{-100, -1, 1, 5, 1000})), int32(-r.Intn(3))))
+		j.Dirs = append(j.Dirs, JDir{Kind: 'a', Date: off, Balances: []JBal{{x, wrong.String(), c}}})
+		day = off
+	default: // valid
+		fillers(state, day+2)
+		day += 2
+		for _, a := range accounts {
+			if open[a] && isAL(a) {
+				j.Dirs = append(j.Dirs, JDir{Kind: 'a', Date: day, Balances: []JBal{{a, "?", Pick(r, coms)}}})
+			}
+		}
+	}
+	if r.Chance(1, 3) { // the journal goes on
+		book(day+r.Range(1, 5), Pick(r, descs), pair(Pick(r, others())))
+	}
+	for i, d := range j.Dirs {
+		if d.Kind != 'a' || d.Balances[0].Qty != "?" {
+			continue
+		}
+		// the position at the end of the assertion's day (an account is only closed with all positions at zero)
+		bal := d.Balances[0]
+		var sum decimal.Decimal
+		for _, t := range j.Dirs {
+			if t.Kind != 't' || t.Date > d.Date {
+				continue
+			}
+			for _, b := range t.Bookings {
+				q, _ := decimal.NewFromString(b.Qty)
+				if b.Com == bal.Com && b.Credit == bal.Account {
+					sum = sum.Sub(q)
+				}
+				if b.Com == bal.Com && b.Debit == bal.Account {
+					sum = sum.Add(q)
+				}
+			}
+		}
+		bal.Qty = sum.String()
+		j.Dirs[i].Balances = []JBal{bal}
+	}
+	return j, kind, []string{"order:" + kind}
 }
